@@ -531,7 +531,8 @@ func (x *g) genHTTP(sv *spec.Service, m *spec.Method, idx int) {
 					h.Cookies = append(h.Cookies, spec.Loc{Attr: a.Name, Wire: wire(cookieWire, a.Name)})
 					x.s.AddFeature("cookie")
 				case m.Stream != "":
-					if x.chance(1, 2) {
+					if mapPrim || x.chance(1, 2) {
+						// (a map can only travel in the query string)
 						h.Query = append(h.Query, spec.Loc{Attr: a.Name, Wire: wire(queryWire, a.Name)})
 						x.s.AddFeature("query-param")
 					} else {
